@@ -5,6 +5,7 @@ import (
 	"go/token"
 	"go/types"
 	"regexp"
+	"sort"
 	"strconv"
 	"strings"
 
@@ -348,4 +349,381 @@ func safeReason(r *Run, v ssa.Value, seen map[ssa.Value]bool, depth int) (string
 		return "a parameter of a function without callers in sight", false
 	}
 	return "text of an origin the rule cannot bound (" + v.String() + ")", false
+}
+
+// ruleMemoKey (R3k.memo): a memo — `if v, ok := m[k]; ok { return v }; m[k] = f(a, b)` — answers
+// later questions with an earlier answer, so its key has to hold everything the answer depends
+// on. The rule compares what the stored value is computed from with what the key is computed
+// from, as access paths from the function's inputs (`req`, `req.QueryPlanStep.URL`,
+// `variables["id"]` …): every input of the value must be covered by an input of the key (the same
+// path or a shorter one), unless it cannot change during the life of the memo — a parameter of
+// the function when the map is made inside it, the receiver of the method. A verdict that
+// depends on the step AND the entity, remembered under the entity's id alone, is handed to the
+// next step that asks about the same entity. A map whose old entry goes into the new one
+// (`m[k] = merge(m[k], v)`) is an accumulator, not a memo.
+func ruleMemoKey(r *Run) {
+	const rule = "R3k.memo"
+	n := 0
+	for _, fn := range r.P.Funcs {
+		if !inModule(fn) {
+			continue
+		}
+		type acc struct {
+			at      ssa.Instruction
+			m, k, v ssa.Value
+			kind    string
+		}
+		var puts, gets []acc
+		for _, ins := range allInstrs(fn) {
+			switch x := ins.(type) {
+			case *ssa.MapUpdate:
+				puts = append(puts, acc{x, x.Map, x.Key, x.Value, "map"})
+			case *ssa.Lookup:
+				if _, isMap := x.X.Type().Underlying().(*types.Map); isMap && x.CommaOk {
+					gets = append(gets, acc{x, x.X, x.Index, x, "map"})
+				}
+			case ssa.CallInstruction:
+				cn := calleeName(x.Common())
+				a := x.Common().Args
+				v, _ := ins.(ssa.Value)
+				switch cn {
+				case "(*sync.Map).Store", "(*sync.Map).LoadOrStore", "(*sync.Map).Swap":
+					if len(a) == 3 {
+						puts = append(puts, acc{x, a[0], a[1], a[2], "sync.Map"})
+						if cn != "(*sync.Map).Store" {
+							gets = append(gets, acc{x, a[0], a[1], v, "sync.Map"})
+						}
+					}
+				case "(*sync.Map).Load":
+					if len(a) == 2 {
+						gets = append(gets, acc{x, a[0], a[1], v, "sync.Map"})
+					}
+				}
+			}
+		}
+		for _, p := range puts {
+			vl := inputPaths(p.v)
+			if !vl.calls {
+				continue // a plain value: an index, not a memo
+			}
+			var got ssa.Value
+			for _, g := range gets {
+				if sameMemo(g.m, p.m) && g.at != p.at {
+					got = g.v
+				}
+			}
+			if got == nil || vl.seen[got] {
+				continue // never consulted here, or the old entry flows into the new one
+			}
+			n++
+			kl := inputPaths(p.k)
+			// what cannot change while the memo lives
+			invariant := func(root ssa.Value) bool {
+				switch x := root.(type) {
+				case *ssa.Global, *ssa.Const, *ssa.Function:
+					return true
+				case *ssa.Parameter:
+					if fn.Signature.Recv() != nil && len(fn.Params) > 0 && x == fn.Params[0] {
+						return true
+					}
+					return madeIn(fn, p.m)
+				case *ssa.FreeVar:
+					return madeIn(fn, p.m)
+				}
+				return false
+			}
+			var missing []string
+			seenMissing := map[string]bool{}
+			for _, lv := range vl.leaves {
+				if invariant(lv.root) {
+					continue
+				}
+				covered := false
+				for _, lk := range kl.leaves {
+					if lk.root == lv.root && (lk.path == lv.path || lk.path == "" || strings.HasPrefix(lv.path, lk.path+".")) {
+						covered = true
+					}
+				}
+				if !covered {
+					d := leafName(lv.root)
+					if lv.path != "" {
+						d += "." + lv.path
+					}
+					if !seenMissing[d] {
+						seenMissing[d] = true
+						missing = append(missing, d)
+					}
+				}
+			}
+			sort.Strings(missing)
+			what := "memo"
+			if c := memoisedCall(p.v); c != nil {
+				what = "memo of " + calleeDesc(&c.Call)
+			}
+			r.Check(len(missing) == 0, rule, fnName(fn), what, r.P.pos(p.at.Pos()),
+				"everything the remembered value is computed from is part of the key it is kept under (or cannot change while the memo lives)",
+				"the value kept in this "+p.kind+" is computed from "+strings.Join(missing, ", ")+", which the key does not cover: a later question that differs only there is given the earlier answer")
+		}
+	}
+	r.OKTrivial(rule, "", "memo sites", "-", strconv.Itoa(n)+" memo(s) found in the module (a map that is consulted and then filled with a computed value in one function)")
+}
+
+func memoisedCall(v ssa.Value) *ssa.Call {
+	v = unwrap(v)
+	if ex, ok := v.(*ssa.Extract); ok {
+		v = ex.Tuple
+	}
+	c, _ := v.(*ssa.Call)
+	return c
+}
+
+// madeIn: the map m is made (make / literal) in fn itself.
+func madeIn(fn *ssa.Function, m ssa.Value) bool {
+	m = viaCell(unwrap(m))
+	switch x := m.(type) {
+	case *ssa.MakeMap:
+		return x.Parent() == fn
+	case *ssa.Alloc: // a sync.Map declared locally
+		return x.Parent() == fn
+	}
+	return false
+}
+
+func sameMemo(a, b ssa.Value) bool {
+	a, b = unwrap(a), unwrap(b)
+	if a == b || sameValue(a, b) || viaCell(a) == viaCell(b) {
+		return true
+	}
+	// &x.f of the same x (sync.Map fields are used through their address)
+	fa, ok1 := a.(*ssa.FieldAddr)
+	fb, ok2 := b.(*ssa.FieldAddr)
+	if ok1 && ok2 && fa.Field == fb.Field && (fa.X == fb.X || sameValue(fa.X, fb.X)) {
+		return true
+	}
+	return false
+}
+
+type inputLeaf struct {
+	root ssa.Value
+	path string
+}
+
+type inputSet struct {
+	leaves []inputLeaf
+	seen   map[ssa.Value]bool
+	calls  bool // a call (other than a conversion-like builtin) takes part in the computation
+}
+
+// inputPaths: what v is computed from — the roots of its backward slice (parameters, captured
+// variables, globals, loop variables) with the field path by which each is used.
+func inputPaths(v ssa.Value) *inputSet {
+	out := &inputSet{seen: map[ssa.Value]bool{}}
+	type key struct {
+		v ssa.Value
+		p string
+	}
+	done := map[key]bool{}
+	var walk func(v ssa.Value, path string, depth int)
+	add := func(root ssa.Value, path string) {
+		out.leaves = append(out.leaves, inputLeaf{root, path})
+	}
+	join := func(f, path string) string {
+		if path == "" {
+			return f
+		}
+		return f + "." + path
+	}
+	walk = func(v ssa.Value, path string, depth int) {
+		if v == nil || depth > 60 || done[key{v, path}] {
+			return
+		}
+		done[key{v, path}] = true
+		out.seen[v] = true
+		switch x := v.(type) {
+		case *ssa.Const, *ssa.Function, *ssa.Builtin:
+			return
+		case *ssa.Parameter, *ssa.FreeVar, *ssa.Global, *ssa.Next:
+			add(v, path)
+			return
+		case *ssa.Phi:
+			// a loop variable is an input; a join of alternatives is computed from its edges
+			loopVar := false
+			for _, p := range x.Block().Preds {
+				if x.Block().Dominates(p) {
+					loopVar = true
+				}
+			}
+			if loopVar {
+				add(v, path)
+				return
+			}
+			for _, e := range x.Edges {
+				walk(e, path, depth+1)
+			}
+			return
+		case *ssa.MakeMap, *ssa.MakeSlice, *ssa.MakeChan:
+			return
+		case *ssa.Alloc:
+			for _, st := range storesTo(x) {
+				walk(st.Val, path, depth+1)
+			}
+			if x.Referrers() != nil {
+				for _, ref := range *x.Referrers() {
+					if fa, ok := ref.(*ssa.FieldAddr); ok && fa.Referrers() != nil {
+						for _, r2 := range *fa.Referrers() {
+							if st, ok := r2.(*ssa.Store); ok && st.Addr == ssa.Value(fa) {
+								walk(st.Val, "", depth+1)
+							}
+						}
+					}
+				}
+			}
+			return
+		case *ssa.UnOp:
+			walk(x.X, path, depth+1)
+			return
+		case *ssa.FieldAddr:
+			name := "?"
+			if f := fieldOf(x); f != nil {
+				name = f.Name()
+			}
+			walk(x.X, join(name, path), depth+1)
+			return
+		case *ssa.Field:
+			name := "?"
+			if f := fieldOfVal(x); f != nil {
+				name = f.Name()
+			}
+			walk(x.X, join(name, path), depth+1)
+			return
+		case *ssa.Lookup:
+			if k, ok := x.Index.(*ssa.Const); ok && k.Value != nil && k.Value.Kind() == constant.String {
+				walk(x.X, join("["+constant.StringVal(k.Value)+"]", path), depth+1)
+			} else {
+				walk(x.X, join("[]", path), depth+1)
+				walk(x.Index, "", depth+1)
+			}
+			return
+		case *ssa.IndexAddr:
+			// an element of a list: the element itself is what varies (the loop variable); its
+			// identity is the load, so the list and the index are its roots
+			walk(x.X, join("[]", path), depth+1)
+			walk(x.Index, "", depth+1)
+			return
+		case *ssa.Extract:
+			if _, isNext := x.Tuple.(*ssa.Next); isNext {
+				add(x.Tuple, strconv.Itoa(x.Index))
+				return
+			}
+			walk(x.Tuple, path, depth+1)
+			return
+		case *ssa.TypeAssert:
+			walk(x.X, path, depth+1)
+			return
+		case *ssa.MakeInterface:
+			walk(x.X, path, depth+1)
+			return
+		case *ssa.ChangeType:
+			walk(x.X, path, depth+1)
+			return
+		case *ssa.Convert:
+			walk(x.X, path, depth+1)
+			return
+		case *ssa.ChangeInterface:
+			walk(x.X, path, depth+1)
+			return
+		case *ssa.Call:
+			if b, ok := x.Call.Value.(*ssa.Builtin); !ok || (b.Name() != "len" && b.Name() != "cap" && b.Name() != "append" && b.Name() != "copy") {
+				out.calls = true
+			}
+			if x.Call.IsInvoke() {
+				walk(x.Call.Value, "", depth+1)
+			}
+			for _, a := range x.Call.Args {
+				walk(a, "", depth+1)
+			}
+			return
+		}
+		if ins, ok := v.(ssa.Instruction); ok {
+			for _, op := range operandsOf(ins) {
+				walk(op, "", depth+1)
+			}
+		}
+	}
+	walk(v, "", 0)
+	return out
+}
+
+func leafName(v ssa.Value) string {
+	switch x := v.(type) {
+	case *ssa.Parameter:
+		return x.Name()
+	case *ssa.FreeVar:
+		return x.Name()
+	case *ssa.Global:
+		return x.Name()
+	case *ssa.Phi:
+		if x.Comment != "" {
+			return x.Comment
+		}
+		return "a loop variable"
+	case *ssa.Next:
+		return "the loop's current entry"
+	}
+	return v.Name()
+}
+
+// ruleArrivalOrder (R4c.arrival): the value an atomic read-modify-write hands back (Add, Swap,
+// CompareAndSwap on a shared word) is a ticket: which goroutine gets which value is decided by
+// the scheduler. Counting is harmless; letting the ticket decide something — which of several
+// concurrent batches is refused once a shared budget is used up — makes the outcome of one and
+// the same request differ from run to run. The result of such an operation must not be used.
+func ruleArrivalOrder(r *Run) {
+	const rule = "R4c.arrival"
+	n := 0
+	h := r.Anchor(rule, "pebbles.(*Gateway).queryHandler")
+	if h == nil {
+		return
+	}
+	// the query path only: a once-guard (`if !closed.CompareAndSwap(false, true) { return }`) in
+	// the subscription teardown is a different matter (R8)
+	onPath := r.P.CG.ReachableAll([]*ssa.Function{h})
+	for _, fn := range r.P.Funcs {
+		if !inModule(fn) || !onPath[fn] {
+			continue
+		}
+		k := 0
+		for _, ins := range allInstrs(fn) {
+			c, ok := ins.(*ssa.Call)
+			if !ok {
+				continue
+			}
+			sc := c.Call.StaticCallee()
+			if sc == nil || sc.Pkg == nil || sc.Pkg.Pkg.Path() != "sync/atomic" {
+				continue
+			}
+			name := sc.Name()
+			if !(strings.HasPrefix(name, "Add") || strings.HasPrefix(name, "Swap") || strings.HasPrefix(name, "CompareAndSwap") || strings.HasPrefix(name, "Or") || strings.HasPrefix(name, "And")) {
+				continue
+			}
+			n++
+			k++
+			used := false
+			if refs := c.Referrers(); refs != nil {
+				for _, ref := range *refs {
+					if _, dbg := ref.(*ssa.DebugRef); !dbg {
+						used = true
+					}
+				}
+			}
+			key := "result of atomic " + name
+			if k > 1 {
+				key += "#" + strconv.Itoa(k)
+			}
+			r.Check(!used, rule, fnName(fn), key, r.P.pos(c.Pos()),
+				"the shared word is only counted up or down here; the value handed back is not used",
+				"the value handed back by an atomic "+name+" on a shared word is used: it depends on the order in which the goroutines got there, so what it decides (which of several concurrent batches is refused, which request is the first) differs from run to run for the same request")
+		}
+	}
+	r.OKTrivial(rule, "", "atomic read-modify-write sites", "-", strconv.Itoa(n)+" site(s) on the query path ("+strconv.Itoa(len(onPath))+" functions reachable from the handler)")
 }
